@@ -180,7 +180,7 @@ func c35(c *Ctx) {
 	c.PassBetween(rs, c.Edge("$r.lim <= 0"), Returns(), Calls(ef), true)
 	if fn := c.MustFn(rs); fn != nil {
 		if sites := cb.F(c.P, fn); len(sites) == 1 {
-			id := Term(sites[0].(ssa.CallInstruction).Common().Args[0])
+			id := Term(BaselineArgs(sites[0].(ssa.CallInstruction).Common())[0])
 			for k := 2; k <= 5; k++ {
 				c.Reject(rs, cb, fmt.Sprintf("%s == %d", id, k))
 			}
@@ -256,7 +256,7 @@ func varintTable(c *Ctx, wr, rd string) {
 		bad := ""
 		for i, call := range calls {
 			shift := int64(8 * (n - 1 - i))
-			arg := call.Call.Args[1]
+			arg := BaselineArgs(&call.Call)[1]
 			tag := int64(0)
 			v := stripConv(arg)
 			if bo, ok := v.(*ssa.BinOp); ok && bo.Op == token.OR {
@@ -331,7 +331,7 @@ func varintTable(c *Ctx, wr, rd string) {
 		fmt.Sprintf("mask %#x, length shift %d, accumulate shift %d", mask, lenShift, accShift))
 	// the continuation loop runs to the same length that is recorded afterwards
 	if recs := Calls("(*"+h3+"stream).recordBytesRead").F(c.P, rf); len(recs) == 1 {
-		lenT := Term(recs[0].(ssa.CallInstruction).Common().Args[1])
+		lenT := Term(BaselineArgs(recs[0].(ssa.CallInstruction).Common())[1])
 		found := false
 		ForEachInstr(rf, func(in ssa.Instruction) {
 			if ifi, ok := in.(*ssa.If); ok {
